@@ -252,7 +252,43 @@ def r06_8(prog: Program, rep):
                f"(or deleted) and both pushers are told ok" if bad else "", bad[0].lineno if bad else f.node.lineno)
 
 
+def r06_9(prog: Program, rep):
+    """(a) WHO-MAY-ESCAPE: the exceptions the ref operations raise for ONE ref (FileLocked when another pusher holds its lock,
+    RefFormatError for a malformed name) are turned into that ref's status line by _apply_pack, they do not end the command list
+    before the report is sent; (b) SIBLINGS-AGREE: the in-process push path checks that the new value is in the target store
+    before every set_if_equals, like receive-pack ("missing necessary objects")."""
+    SERVER = "dulwich/server.py"
+    sm = prog.module(SERVER)
+    f = sm.funcs.get("ReceivePackHandler._apply_pack")
+    if f is None:
+        raise AnalysisError("server.ReceivePackHandler._apply_pack not found")
+    caught = set()
+    for t in ast.walk(f.node):
+        if isinstance(t, ast.Assign) and isinstance(t.value, ast.Tuple) and isinstance(t.targets[0], ast.Name) and "exception" in t.targets[0].id:
+            caught |= {norm(e).split(".")[-1] for e in t.value.elts}
+        if isinstance(t, ast.ExceptHandler) and t.type is not None:
+            caught |= {norm(e).split(".")[-1] for e in (t.type.elts if isinstance(t.type, ast.Tuple) else [t.type])}
+    for exc, why in (("FileLocked", "another pusher holds the lock of the ref - the ordinary outcome of two overlapping pushes"), ("RefFormatError", "a name check_ref_format refuses")):
+        rep.ob("R06.9", SERVER, f.qual, f"{exc} raised while one ref is updated becomes that ref's status", exc in caught or "Exception" in caught,
+               f"{exc} ({why}) is not caught: the handler dies before _report_status, refs updated earlier in the list keep their new value unreported and "
+               f"the offending ref is not reported as rejected", f.node.lineno)
+    cm = prog.module("dulwich/client.py")
+    lf = cm.funcs.get("LocalGitClient.send_pack")
+    if lf is None:
+        raise AnalysisError("client.LocalGitClient.send_pack not found")
+    g = cfg_of(prog, lf)
+    sets = [i for i, n in g.nodes.items() for c in node_calls(n) if callee_name(c) == "set_if_equals"]
+    memb = [i for i, n in g.nodes.items() if n.kind == "test" and "object_store" in norm(n.ast) and any(isinstance(x, ast.Compare) and isinstance(x.ops[0], (ast.In, ast.NotIn)) for x in ast.walk(n.ast))]
+    if not sets:
+        raise AnalysisError("LocalGitClient.send_pack: set_if_equals call not found")
+    bad = must_pass(g, sets, memb)
+    rep.ob("R06.9", cm.rel, lf.qual, "every ref update is preceded by a test that the new value is in the target's object store", bool(memb) and not bad,
+           "the in-process push goes from add_pack_data straight to set_if_equals: a push whose tip lies behind the target's shallow boundary (empty pack) reports "
+           "success and leaves a ref naming a missing object; receive-pack answers 'missing necessary objects'", g.nodes[sets[0]].line)
+
+
 def run(prog: Program, rep, tier="quick"):
+    rep.rule("R06.9", "per-ref exceptions of the ref store become that ref's status in receive-pack; the in-process push checks the new value is present")
     rep.rule("R06.8", "atomic on every transport: refused when not advertised; validation covers every command; refs change only through CAS")
     rep.rule("R06.6", "files backend: True only when the effect happened - no effect failure is swallowed on a path to `return True` "
                       "(FileNotFoundError excepted)")
@@ -491,6 +527,7 @@ def run(prog: Program, rep, tier="quick"):
     rep.floor("R06.3", 2)
     r06_6(prog, rep)
     r06_8(prog, rep)
+    r06_9(prog, rep)
     rep.floor("R06.4", 3)
 
 
